@@ -789,6 +789,10 @@ class EphemeralAuthenticatedOnionService(object):
         """
         IAuthenticatedOnionClients API
         """
+        if not isinstance(self._private_key, str) and self._hostname:
+            # key discarded: for an ephemeral service Tor's ServiceID
+            # is the permanent id
+            return self._hostname[:-len('.onion')]
         assert '\n' not in self._private_key
         # why are we sometimes putting e.g. "RSA1024:xxxx" and
         # sometimes not? Should be one or the other
